@@ -16,7 +16,7 @@ RULE = ("seeded random observation sequences from input classes {small ints, mix
         "interleaved initialize() calls and rejected inputs (NaN, str, None; float for Counter), on Tally / "
         "EventBasedTally (with and without subscriber, register and notify entry points) and Counter / "
         "EventBasedCounter; getters judged after every operation for the first 64 operations and at sparse "
-        "checkpoints afterwards; non-trivial = n >= 4 observations with non-zero variance and >= 1 rejected input "
+        "checkpoints afterwards (20% 'sparse' cases: one getter asked only after k observations, after initialize + k other observations, ...); non-trivial = n >= 4 observations with non-zero variance and >= 1 rejected input "
         "or initialize in the sequence, or an all-equal sequence with n >= 2; distinct = canonical sequence hash")
 ASSUMPTIONS = ["observations are finite with |x| in {0} or [1e-6, 1e12]",
                "unbiased skewness follows the SAS/SPSS/Excel formula the docstring names: g1*sqrt(n(n-1))/(n-2)",
@@ -70,7 +70,18 @@ def gen_case(rng, tier, i):
     if klass == "equal" and n >= 2 and rng.random() < 0.5:
         # equal data again after a reset
         ops += [["init"]] + [["obs", vals[0]]] * rng.randint(2, 4)
-    return {"cls": cls, "entry": entry, "ops": ops, "klass": klass}
+    case = {"cls": cls, "entry": entry, "ops": ops, "klass": klass}
+    obs = [o for o in ops if o[0] == "obs"]
+    if len(obs) >= 4 and rng.random() < 0.2:
+        # 'sparse' mode: one getter, asked only at a few moments - equally many observations before and after a
+        # re-initialisation with nothing queried in between (a memoised answer must not survive new data or a reset)
+        k = min(len(obs) // 2, 12)
+        counterish = "Counter" in cls
+        names = ["n", "count"] if counterish else ["n", "min", "max", "sum", "mean", "variance_b", "variance_u", "stdev_b", "stdev_u", "skewness_b",
+                                                   "skewness_u", "kurtosis_b", "kurtosis_u", "excess_b", "excess_u"] + [f"ci_{a}" for a in ALPHAS[2:6]]
+        case["sparse"] = rng.choice(names)
+        case["ops"] = obs[:k] + [["q"], ["init"]] + obs[-k:] + [["q"], obs[0], ["q"], ["init"]] + obs[:k] + [["q"]]
+    return case
 
 
 def _getters_tally(t):
@@ -83,7 +94,7 @@ def _getters_tally(t):
     return g
 
 
-def _safe_getters(ctx, t, counter, where):
+def _safe_getters(ctx, t, counter, where, only=None):
     """call every getter individually so that one raising does not hide the others"""
     from vlib.base import fx
     out = {}
@@ -98,6 +109,8 @@ def _safe_getters(ctx, t, counter, where):
         for a in ALPHAS:
             calls[f"ci_{a}"] = (lambda a=a: t.confidence_interval(a))
     for name, fn in calls.items():
+        if only is not None and name != only:
+            continue
         try:
             out[name] = fn()
         except Exception as e:
@@ -153,6 +166,8 @@ def run_case(case, ctx):
             ex.reset()
             csum, cn = 0, 0
             inits += 1
+        elif op[0] == "q":
+            pass
         else:
             kind = op[1]
             if kind == "float_for_counter" and not counter:
@@ -190,12 +205,17 @@ def run_case(case, ctx):
             rej += 1
             continue
         # ---- judge the getters
-        if opi >= 64 and opi != nops - 1 and (opi % 97) != 0:
+        sparse = case.get("sparse")
+        if sparse:
+            if op[0] != "q":
+                continue
+            ctx.count("sparse_queries")
+        elif opi >= 64 and opi != nops - 1 and (opi % 97) != 0:
             continue
-        got = _safe_getters(ctx, t, counter, where)
+        got = _safe_getters(ctx, t, counter, where, only=sparse)
         if counter:
-            ctx.count("getter_comparisons", 2)
-            if got["n"] != cn or got["count"] != csum:
+            ctx.count("getter_comparisons", len(got))
+            if got.get("n", cn) != cn or got.get("count", csum) != csum:
                 ctx.viol("counter-value", {**where, "got": got, "want": {"n": cn, "count": csum}})
                 return
             continue
@@ -204,6 +224,8 @@ def run_case(case, ctx):
             zero_var_seen = True
             ctx.count("zero_variance_states")
         for name, (w, tol) in want.items():
+            if name not in got:
+                continue
             g = got[name]
             if isinstance(g, tuple) and g and g[0] == "raised":
                 return
